@@ -50,7 +50,7 @@ def entryOf (j : Json) : Option (Nat × Except Err State × List State) := do
   entryTable.find? (fun t => t.1 == e)
 
 def valStr : Val → String
-  | .opaque => "opaque"
+  | .obj => "opaque"
   | .mod m => "mod:" ++ modStr m
 
 def handle (j : Json) : Json :=
